@@ -27,7 +27,7 @@ ASSUMPTIONS = ["muutils sanitize_fname / shorten_numerical_to_str define the two
 NSHARDS = {"quick": 16, "thorough": 16}
 FIELDS = ["name", "grid_n", "n_mazes", "maze_ctor", "maze_ctor_kwargs", "endpoint_kwargs", "seed", "applied_filters"]
 THRESHOLDS = {"quick": {"c18:roundtrip": 2000, "c18:roundtrip-json": 2000, "c18:hash-cross-process": 2000, "c18:hashseeds": 3,
-                        **{f"c18:pair:{f}": 100 for f in FIELDS}, "c18:fname": 2000, "c18:collection-cfg": 50,
+                        **{f"c18:pair:{f}": 100 for f in FIELDS}, "c18:fname": 2000, "c18:cache-file-names": 8, "c18:cache-file-names:dot-in-name-or-count": 5, "c18:collection-cfg": 50,
                         "c18:in-place": 500, "c18:serialized-dict-edited-by-caller": 300, "c18:in-place:container-edit": 100, "c18:eq": 500, "c18:tuples-restored:endpoint": 300, "c18:tuples-restored:filters": 300, "c18:gen:gen_dfs": 1,
                         "c18:gen:gen_wilson": 1, "c18:gen:gen_percolation": 1, "c18:gen:gen_dfs_percolation": 1, "c18:gen:gen_prim": 1}}
 THRESHOLDS["thorough"] = dict(THRESHOLDS["quick"])
@@ -212,7 +212,46 @@ def check_roundtrip(ctx, spec, cfg, via_json):
         ctx.check(int(back.stable_hash_cfg()) == int(cfg.stable_hash_cfg()), f"{mech}/hash-changes-over-roundtrip", "", case)
 
 
+def _cache_file_names(ctx):
+    """the file the config-driven entry point really writes: exactly one, named `to_fname()` + '.zanj' - also for names that contain
+    dots and for maze counts whose shortened form contains one ('1.0K')"""
+    import os
+    import shutil
+    import tempfile
+    import warnings
+
+    from maze_dataset import MazeDataset, MazeDatasetConfig
+    from maze_dataset.generation.generators import GENERATORS_MAP
+
+    specs = [("plain", 3, 4, "gen_dfs", {}), ("perc_p0.1", 3, 5, "gen_dfs_percolation", dict(p=0.1)), ("hallway_v1.2", 4, 3, "gen_dfs", dict(do_forks=False)),
+             ("a.b.c", 2, 6, "gen_dfs", {}), ("big", 2, 1000, "gen_dfs", {}), ("big", 2, 2500, "gen_dfs", {}), ("dotted.name", 2, 1234, "gen_dfs", {}),
+             ("trailingdot.", 3, 4, "gen_wilson", {}), ("x", 3, 999, "gen_dfs", {}), ("v2.0-final", 3, 7, "gen_prim", {})]
+    for j, (name, g_n, n, gen, kw) in enumerate(specs):
+        if not ctx.mine(j):
+            continue
+        tmp = tempfile.mkdtemp(prefix="c18-cache-", dir=ctx.work)
+        case = dict(name=name, grid_n=g_n, n_mazes=n, gen=gen, kwargs=kw)
+        try:
+            with warnings.catch_warnings():
+                warnings.simplefilter("ignore")
+                cfg = MazeDatasetConfig(name=name, grid_n=g_n, n_mazes=n, maze_ctor=GENERATORS_MAP[gen], maze_ctor_kwargs=dict(kw), seed=11 + j)
+                want = cfg.to_fname() + ".zanj"
+                try:
+                    MazeDataset.from_config(cfg, local_base_path=tmp, do_download=False)
+                except Exception as e:  # noqa: BLE001
+                    ctx.violation(f"C18/cache-file/exception/{type(e).__name__}", repr(e)[:300], case)
+                    continue
+            files = sorted(os.listdir(tmp))
+            ctx.ev(); ctx.tally("c18:cache-file-names")
+            if "." in name or (1000 <= n < 10000):
+                ctx.tally("c18:cache-file-names:dot-in-name-or-count")
+            ctx.check(files == [want], "C18/cache-file-not-named-after-to_fname", f"directory holds {files}, to_fname() says {want!r}", case)
+        finally:
+            shutil.rmtree(tmp, ignore_errors=True)
+
+
 def run(ctx):
+    _cache_file_names(ctx)
     from muutils.misc import sanitize_fname, shorten_numerical_to_str
     from maze_dataset.dataset.collected_dataset import MazeDatasetCollectionConfig
 
